@@ -66,7 +66,7 @@ MUTANTS = {
 def main():
     names = sys.argv[1:] or list(MUTANTS)
     tier = os.environ.get("E2_TIER", "quick")
-    src = open(SRC).read()
+    src = open(os.environ.get("E2_BASE_SRC", SRC)).read()  # E2_BASE_SRC: mutate a patched copy (proposed fix) instead of the tree
     for name in names:
         fn, props, what = MUTANTS[name]
         d = tempfile.mkdtemp(prefix="vfe2mut-", dir="/verif/.build")
